@@ -611,6 +611,26 @@ HDR = ("From Coq Require Import ZArith QArith List Bool.\nFrom Bignums Require I
        "From P Require Import C06_model_ops C06_gen C06_model.\nImport ListNotations.\n")
 
 
+def est_cost(m):
+    """rough vm_compute seconds of one model case (measured: exact 1.1e-3 * M^2 N 4^k, rounded 4.7e-4 * M^2 N k per route)"""
+    c, _, kind = m
+    base = c["M"] ** 2 * c["N"]
+    if kind == "rounded":
+        return 4.7e-4 * base * max(c["order"], 1) * 6
+    return 1.1e-3 * base * 4 ** c["order"] * (6 if kind == "exact" else 1.2)
+
+
+def balance(exprs, meta, nbins):
+    """reorder the cases so that consecutive shards of equal size have similar cost (snake distribution)"""
+    order = sorted(range(len(exprs)), key=lambda i: -est_cost(meta[i]))
+    bins = [[] for _ in range(nbins)]
+    for r, i in enumerate(order):
+        k = r % (2 * nbins)
+        bins[k if k < nbins else 2 * nbins - 1 - k].append(i)
+    flat = [i for b in bins for i in b]
+    return [exprs[i] for i in flat], [meta[i] for i in flat], max(1, -(-len(exprs) // nbins))
+
+
 def diagnose(c, out):
     """which route/point deviates from the 60-digit reference (for the failure text)"""
     try:
@@ -660,8 +680,8 @@ def run(ctx: Ctx):
         model_ok = True
 
     # ------------------------------------------------------------------ cases: implementation + oracles
-    n_main = 50 if ctx.quick else 700
-    n_small = 30 if ctx.quick else 250
+    n_main = 50 if ctx.quick else 400
+    n_small = 30 if ctx.quick else 150
     cases = [make_case(ctx, i, False) for i in range(n_main)] + [make_case(ctx, n_main + i, True) for i in range(n_small)]
     budget = [6]
     outs, oracle_failed = [], set()
@@ -701,7 +721,8 @@ def run(ctx: Ctx):
                 ctx.case((case_key(c), "xr"))
         ctx.count("model_cases_exact", sum(1 for m in meta if m[2] == "exact"))
         ctx.count("model_cases_rounded", sum(1 for m in meta if m[2] == "rounded"))
-        bad = ctx.coq_bool_cases("C06_cases", HDR, exprs, shard=max(4, len(exprs) // 32 + 1))
+        exprs, meta, shard = balance(exprs, meta, 16 if ctx.quick else 96)
+        bad = ctx.coq_bool_cases("C06_cases", HDR, exprs, shard=shard, timeout=2400)
         rep = 0
         for bi in bad:
             c, out, kind = meta[bi]
@@ -721,7 +742,7 @@ def run(ctx: Ctx):
             ctx.sample({"case": case_key(s[0]), "instance": s[2], "impl_call": s[1]["call"].tolist()})
 
     # ------------------------------------------------------------------ many more geometries: oracles only
-    n_extra = 800 if ctx.quick else 15000
+    n_extra = 800 if ctx.quick else 8000
     for i in range(n_extra):
         c = make_case(ctx, 100000 + i, False)
         out = impl_eval(c)
